@@ -132,7 +132,16 @@ pub fn eval_constant(egraph: &EGraph, enode: &Expr) -> ConstValue {
     } else if let Some((op, a, b)) = enode.binary_op() {
         let (a, b) = (x(a)?, x(b)?);
         if a.is_null() || b.is_null() {
-            return Some(DataValue::Null);
+            // three-valued logic: NULL AND false = false, NULL OR true = true; everything else is NULL
+            return Some(match enode {
+                And(_) if matches!(a, DataValue::Bool(false)) || matches!(b, DataValue::Bool(false)) => {
+                    DataValue::Bool(false)
+                }
+                Or(_) if matches!(a, DataValue::Bool(true)) || matches!(b, DataValue::Bool(true)) => {
+                    DataValue::Bool(true)
+                }
+                _ => DataValue::Null,
+            });
         }
         let array_a = ArrayImpl::from(a);
         let array_b = ArrayImpl::from(b);
